@@ -2,7 +2,9 @@
 import time
 from lib.common import run_tasks, finish
 
-A_CONTRACTS = [('contracts.gmpy', 'invert', 'invert')]
+A_CONTRACTS = [('contracts.gmpy', 'invert', 'invert'), ('contracts.gmpy', 'gcdext', 'gcdext'), ('contracts.gmpy', 'ratrec_given', 'ratrec'), ('contracts.gmpy', 'ratrec_N', 'ratrec'),
+               ('contracts.gmpy', 'ratrec_D', 'ratrec'), ('contracts.gmpy', 'ratrec_ND', 'ratrec'), ('contracts.gmpy', 'next_prime', 'next_prime'), ('contracts.gmpy', 'prev_prime', 'prev_prime'),
+               ('contracts.gmpy', 'is_square', 'is_square')]
 NATIVES = ['invert', 'gcdext', 'ratrec', 'is_prime', 'next_prime', 'prev_prime', 'powmod', 'powmod_lists', 'legendre', 'jacobi',
            'kronecker', 'isqrt', 'is_square', 'iroot', 'factor_prime_power']
 
@@ -13,7 +15,9 @@ def run(tier, seed):
     tasks += [('lib.native', 'run_natives', ('contracts.gmpy', [n], tier)) for n in NATIVES]
     obs = run_tasks(tasks)
     return finish('C25', tier, seed, obs, 'other', t0,
-                  explanation='contract verification of mpyc/gmpy.py: engine A (VCs from the AST of the real source, z3/cvc5) proves the '
+                  explanation='contract verification of mpyc/gmpy.py: engine A (VCs from the AST of the real source, z3/cvc5) proves, for all integers: invert (inverse, range, raises iff gcd != 1), '
+                              'gcdext (g = gcd >= 0, Bezout identity except on the GMP-normalisation tail), ratrec (n = d*x mod y, |n| <= N, 0 < d <= D, coprime, for all four default cases), '
+                              'next_prime/prev_prime (least/greatest prime beyond x, relative to the is_prime contract), is_square (mod-16 filter sound); the '
                               'contracts marked P for all integers; every function additionally (or, where no inductive invariant is within '
                               'reach, only) has its executable contract evaluated on the real function over the stated finite domain (B, bounded)',
                   assumptions=['Python int = mathematical integer; // and % floor semantics encoded definitionally',
